@@ -104,11 +104,11 @@ def rule_v3(repo):
     return res
 
 
-def rule_v4(repo):
+def rule_v4(repo, rid='C10.V4'):
     """The normaliser / solver keep process-wide memo tables keyed by the term alone.  They are read
     only when no side conditions were supplied; they must be written under the same restriction, or a
     result proved under conditions is later handed out where none were supplied."""
-    res = RuleResult('C10.V4', 'a process-wide memo of conversion results is written only under the conditions under which it is read', floor=2)
+    res = RuleResult(rid, 'a process-wide memo of conversion results is written only under the conditions under which it is read', floor=2)
     AUTO = 'logic/auto.py'
     m = repo.module(AUTO)
     memos = set()
@@ -200,5 +200,39 @@ def rule_v5(repo):
     return res
 
 
+def rule_v6(repo):
+    """The product normaliser finds the base of a factor with dest_atom and brings two factors with the
+    same base into the form base ^ exponent with to_exponent_form before adding the exponents.  The two
+    must agree on which terms already *are* of that form: dest_atom strips an exponent exactly when
+    to_exponent_form leaves the term as it is.  If they disagree the combination step fails, the product
+    rule is skipped and x ^ n * x and x * x ^ n keep different 'normal forms'."""
+    from ..decide import decision_table, atoms_of
+    res = RuleResult('C10.V6', 'dest_atom strips an exponent exactly for the terms to_exponent_form regards as already in exponent form', floor=1)
+    REAL = 'data/real.py'
+    f1 = repo.func(REAL, 'dest_atom')
+    f2 = repo.func(REAL, 'to_exponent_form.get_proof_term')
+    c1, c2 = cfg_of(f1.node), cfg_of(f2.node)
+    p1, p2 = f1.params()[0], f2.params()[1]
+    r1, r2 = {p1: '$t'}, {p2: '$t'}
+    atoms = sorted(set(atoms_of(c1, r1)) | set(atoms_of(c2, r2)))
+    # the unchanged proof term of to_exponent_form: a name defined as refl(<param>)
+    refl_names = {t.id for n in ast.walk(f2.node) if isinstance(n, ast.Assign) and isinstance(n.value, ast.Call) and
+                  call_name(n.value) in ('refl', 'ProofTerm.reflexive') and n.value.args and is_name(n.value.args[0], p2)
+                  for t in n.targets if isinstance(t, ast.Name)}
+    need(refl_names, 'to_exponent_form.get_proof_term: no `pt = refl(t)` found')
+    t1 = decision_table(c1, atoms, lambda r: 'keep' if is_name(r.value, p1) else 'strip', r1, 'dest_atom')
+    t2 = decision_table(c2, atoms, lambda r: 'asis' if isinstance(r.value, ast.Name) and r.value.id in refl_names else 'wrap', r2, 'to_exponent_form')
+    diff = [v for v in t1 if (t1[v] == 'strip') != (t2[v] == 'asis') and 'raise' not in (t1[v], t2[v])]
+    if diff:
+        v = diff[0]
+        case = ', '.join(('' if b else 'not ') + a for a, b in zip(atoms, v))
+    res.add('%s :: dest_atom / to_exponent_form :: exponent-form-agreement' % REAL, not diff,
+            'same decision on all %d cases of %d atomic tests' % (len(t1), len(atoms)) if not diff else
+            'they disagree in %d of %d cases, e.g. when [%s]: dest_atom %ss, to_exponent_form %s' % (
+                len(diff), len(t1), case, t1[v], 'leaves the term as it is' if t2[v] == 'asis' else 'wraps it as t ^ 1'), f1.loc)
+    res.info['atoms'] = atoms
+    return res
+
+
 def rules(repo):
-    return [rule_v1(repo), rule_v2(repo), rule_v3(repo), rule_v4(repo), rule_v5(repo)]
+    return [rule_v1(repo), rule_v2(repo), rule_v3(repo), rule_v4(repo), rule_v5(repo), rule_v6(repo)]
